@@ -293,6 +293,74 @@ theorem mutAssignType_lower (ms : List Ty) (A : Ty) (wl : wfL ms = true) (h : mu
   obtain ⟨wA, _, hmem⟩ := foldAssign_lower ms .any A wl rfl h
   exact ⟨wA, hmem⟩
 
+/-! ### `flatten_tuple()`: the position-wise JOIN over a union of tuple types of one length -/
+
+theorem zipConcat_props : ∀ (as bs : List Ty), wfL as = true → wfL bs = true → as.length = bs.length →
+    wfL (List.zipWith concat as bs) = true ∧ argsOk as (List.zipWith concat as bs) = true ∧
+      argsOk bs (List.zipWith concat as bs) = true
+  | [], [], _, _, _ => by simp [wfL, argsOk]
+  | a :: as, b :: bs, wa, wb, hl => by
+    simp only [wfL, Bool.and_eq_true] at wa wb
+    simp only [List.length_cons, Nat.add_right_cancel_iff] at hl
+    obtain ⟨h1, h2, h3⟩ := zipConcat_props as bs wa.2 wb.2 hl
+    obtain ⟨u1, u2⟩ := concat_upper a b wa.1 wb.1
+    simp only [List.zipWith, wfL, argsOk, Bool.and_eq_true]
+    exact ⟨⟨concat_wf a b wa.1 wb.1, h1⟩, ⟨u1, h2⟩, ⟨u2, h3⟩⟩
+  | [], _ :: _, _, _, hl => by simp at hl
+  | _ :: _, [], _, _, hl => by simp at hl
+
+def baseFlat : Ty → Option (List Ty) := fun | .tup es => some es | _ => none
+def combFlat : List Ty → List Ty → Option (List Ty) :=
+  fun acc cur => if acc.length != cur.length then none else some (List.zipWith concat acc cur)
+
+theorem foldFlat_upper : ∀ (ms : List Ty) (acc R : List Ty), wfL ms = true → wfL acc = true →
+    ms.foldlM (fun acc t => do let c ← baseFlat t; combFlat acc c) acc = some R →
+    wfL R = true ∧ argsOk acc R = true ∧ ∀ m ∈ ms, ∃ es, m = .tup es ∧ argsOk es R = true
+  | [], acc, R, _, wa, h => by
+    simp only [List.foldlM, pure, Option.some.injEq] at h
+    subst h
+    exact ⟨wa, argsOk_refl _ wa, by simp⟩
+  | m :: ms, acc, R, wl, wa, h => by
+    simp only [wfL, Bool.and_eq_true] at wl
+    simp only [List.foldlM, bind, Option.bind] at h
+    cases m with
+    | tup es =>
+      simp only [baseFlat, combFlat] at h
+      by_cases hlen : (acc.length != es.length) = true
+      · simp [hlen] at h
+      · simp only [hlen, Bool.false_eq_true, if_false] at h
+        have hl : acc.length = es.length := by simpa using hlen
+        have wes : wfL es = true := by have := wl.1; simpa [wf] using this
+        obtain ⟨z1, z2, z3⟩ := zipConcat_props acc es wa wes hl
+        obtain ⟨wR, hR, hmem⟩ := foldFlat_upper ms _ R wl.2 z1 h
+        refine ⟨wR, argsOk_trans _ _ _ wa z1 wR z2 hR, ?_⟩
+        intro z hz
+        rcases List.mem_cons.mp hz with rfl | hz
+        · exact ⟨es, rfl, argsOk_trans _ _ _ wes z1 wR z3 hR⟩
+        · exact hmem z hz
+    | _ => simp [baseFlat] at h
+
+theorem flattenTuple_upper (ms ts : List Ty) (wl : wfL ms = true) (h : flattenTuple (.multi ms) = some ts) :
+    wfL ts = true ∧ ∀ m ∈ ms, ∃ es, m = .tup es ∧ argsOk es ts = true := by
+  have h' : query baseFlat combFlat (.multi ms) = some ts := h
+  simp only [query, foldQ] at h'
+  cases ms with
+  | nil => simp at h'
+  | cons m ms =>
+    simp only [wfL, Bool.and_eq_true] at wl
+    simp only [bind, Option.bind] at h'
+    cases m with
+    | tup es =>
+      simp only [baseFlat] at h'
+      have wes : wfL es = true := by have := wl.1; simpa [wf] using this
+      obtain ⟨wR, hR, hmem⟩ := foldFlat_upper ms es ts wl.2 wes h'
+      refine ⟨wR, ?_⟩
+      intro z hz
+      rcases List.mem_cons.mp hz with rfl | hz
+      · exact ⟨es, rfl, hR⟩
+      · exact hmem z hz
+    | _ => simp [baseFlat] at h'
+
 /-! ### slices -/
 
 theorem mem_asTypeLU : ∀ (vs : List Val) (ty : Ty), ty ∈ asTypeL vs → ∃ v ∈ vs, v.asType = ty
